@@ -30,6 +30,7 @@ pub open spec fn oseq(o: Option<Vec<String>>) -> Option<Seq<String>> { match o {
 /// one instruction dispatch, from the statement: empty / pre-process / command-less lines are no-ops,
 /// an unknown command is a crash, otherwise exactly one invocation of the looked-up command with the
 /// bound arguments, this line and this output variable
+#[verifier::opaque]
 pub open spec fn dispatch_ok(
     instruction: Instruction, line: usize, instrs: Seq<Instruction>,
     c0: Commands, v0: Map<String, String>, s0: Map<String, StateValue>, e0: Env,
@@ -63,4 +64,76 @@ pub open spec fn on_err_outcome(res: CommandResult) -> Result<(), Seq<char>> {
     match res { CommandResult::Exit(_) => Err("Exiting Script."@), CommandResult::Crash(e) => Err(e@), _ => Ok(()) }
 }
 pub open spec fn rview(r: Result<(), String>) -> Result<(), Seq<char>> { match r { Ok(_) => Ok(()), Err(e) => Err(e@) } }
+/// the on_error protocol of the statement, as a relation between the state handed to it and what it leaves
+#[verifier::opaque]
+pub open spec fn on_error_post(c0: Commands, v0: Map<String, String>, s0: Map<String, StateValue>, e0: Env, instrs: Seq<Instruction>,
+    error: String, meta: InstructionMetaInfo, r: Result<(), Seq<char>>, c1: Commands, v1: Map<String, String>, s1: Map<String, StateValue>, e1: Env) -> bool
+{
+    if c0.lookup("on_error"@) is None { r is Ok && c1 == c0 && v1 == v0 && s1 == s0 && e1 == e0 }
+    else {
+        exists|args: Seq<String>, res: CommandResult|
+            on_error_args_ok(args, error, meta)
+            && #[trigger] c0.lookup("on_error"@)->0.run_rel(
+                CallIn { arguments: bind_spec(v0, Some(args), InstructionMetaInfo { line: None, source: None }), line: 0, output_variable: None,
+                         variables: v0, state: s0, commands: c0, env: e0, instructions: instrs },
+                res,
+                CallOut { variables: v1, state: s1, commands: c1, env: e1 })
+            && r == on_err_outcome(res)
+    }
+}
+
+// ---- the whole run as a trace of steps (C03: "the sequence of commands invoked, the arguments they see,
+// the final variables and the success or failure (with line) of the run equal those of this abstract machine") ----
+pub struct Step {
+    pub line: usize, pub res: CommandResult, pub out: Option<String>,
+    pub c0: Commands, pub v0: Map<String, String>, pub s0: Map<String, StateValue>, pub e0: Env,   // handed to the instruction
+    pub c1: Commands, pub v1: Map<String, String>, pub s1: Map<String, StateValue>, pub e1: Env,   // left by the command
+    // only meaningful for Error results: outcome of the on_error protocol and the state it leaves
+    pub eo: Result<(), Seq<char>>, pub c2: Commands, pub v2e: Map<String, String>, pub s2: Map<String, StateValue>, pub e2: Env,
+}
+pub open spec fn false_str() -> String { skey("false"@) }
+/// variables after the runner reacted to the result
+pub open spec fn v_after(st: Step) -> Map<String, String> {
+    match st.res {
+        CommandResult::Continue(o) => upd(st.v1, st.out, o),
+        CommandResult::GoTo(o, _) => upd(st.v1, st.out, o),
+        CommandResult::Exit(o) => upd(st.v1, st.out, o),
+        CommandResult::Error(_) => st.v2e,
+        CommandResult::Crash(_) => st.v1,
+    }
+}
+pub open spec fn step_ok(instrs: Seq<Instruction>, st: Step) -> bool {
+    &&& st.line < instrs.len()
+    // exactly one dispatch of the instruction at `line`, with this line number, on the current variables
+    &&& dispatch_ok(instrs[st.line as int], st.line, instrs, st.c0, st.v0, st.s0, st.e0, st.res, st.out, st.c1, st.v1, st.s1, st.e1)
+    // the flag was not raised when the instruction was started (sequential reading of C13)
+    &&& !st.e0.halt_now()
+    // error: output becomes 'false', then the on_error protocol with the message and the instruction's own line/source
+    &&& st.res matches CommandResult::Error(m) ==> on_error_post(st.c1, upd(st.v1, st.out, Some(false_str())), st.s1, st.e1, instrs, m, instrs[st.line as int].meta_info,
+            st.eo, st.c2, st.v2e, st.s2, st.e2)
+}
+pub enum Next { To(usize), StopOk, StopErr }
+pub open spec fn nonzero_exit(o: Option<String>) -> bool { o is Some && crate::parse_i32_spec(o->0@) is Some && crate::parse_i32_spec(o->0@)->0 != 0 }
+pub open spec fn next_of(st: Step, labels: Map<String, usize>, repl: bool) -> Next {
+    match st.res {
+        CommandResult::Continue(_) => Next::To((st.line + 1) as usize),
+        CommandResult::GoTo(_, GoToValue::Line(k)) => Next::To(k),
+        CommandResult::GoTo(_, GoToValue::Label(l)) => if labels.contains_key(l) { Next::To(labels[l]) } else { Next::StopErr },
+        CommandResult::Exit(o) => if !repl && nonzero_exit(o) { Next::StopErr } else { Next::StopOk },
+        CommandResult::Error(_) => if st.eo is Ok { Next::To((st.line + 1) as usize) } else { Next::StopErr },
+        CommandResult::Crash(_) => if repl { Next::StopOk } else { Next::StopErr },
+    }
+}
+#[verifier::opaque]
+pub open spec fn trace_ok(instrs: Seq<Instruction>, labels: Map<String, usize>, repl: bool, start: usize, v_init: Map<String, String>, tr: Seq<Step>) -> bool {
+    &&& forall|i: int| 0 <= i < tr.len() ==> step_ok(instrs, #[trigger] tr[i])
+    &&& forall|i: int| 0 <= i < tr.len() ==> (#[trigger] tr[i]).line == (if i == 0 { start } else { next_of(tr[i - 1], labels, repl)->To_0 })
+    &&& forall|i: int| 0 <= i < tr.len() ==> (#[trigger] tr[i]).v0 == (if i == 0 { v_init } else { v_after(tr[i - 1]) })
+    &&& forall|i: int| 0 <= i < tr.len() - 1 ==> next_of(#[trigger] tr[i], labels, repl) is To
+}
+/// where the machine stands after the trace
+pub open spec fn cur_line(labels: Map<String, usize>, repl: bool, start: usize, tr: Seq<Step>) -> usize {
+    if tr.len() == 0 { start } else { next_of(tr.last(), labels, repl)->To_0 }
+}
+pub open spec fn cur_vars(v_init: Map<String, String>, tr: Seq<Step>) -> Map<String, String> { if tr.len() == 0 { v_init } else { v_after(tr.last()) } }
 } // mod rspec
